@@ -32,13 +32,14 @@ StepJ(c, rd) == [t |-> c[Len(c)].t, v |-> c[Len(c)].v, read |-> rd, exp |-> ExpJ
 GInit == Init /\ hist = <<>> /\ done = FALSE
 
 GStep == /\ ~done /\ Len(curve) < MaxLen
-         /\ \E g \in Gaps, v \in Values : AddPoint(Now + g, v)
+         /\ \E g \in Gaps, v \in AllValues : (Len(curve) = 0 => v > 0) /\ AddPoint(Now + g, v)
          /\ hist' = Append(hist, StepJ(curve', FALSE))
          /\ UNCHANGED done
 
 GStepR == /\ ~done /\ Len(curve) < MaxLen
           \* draws bound through singleton sets (notes/HOWTO.md "TLC pitfalls")
-          /\ \E g \in {RandomElement(Gaps)}, v \in {RandomElement(Values)}, rd \in {RandomElement(BOOLEAN)} :
+          /\ \E g \in {RandomElement(Gaps)}, rd \in {RandomElement(BOOLEAN)},
+                v \in {RandomElement(IF Len(curve) = 0 THEN {x \in AllValues : x > 0} ELSE AllValues)} :
                 /\ AddPoint(Now + g, v)
                 /\ hist' = Append(hist, StepJ(curve', rd))
           /\ UNCHANGED done
